@@ -72,7 +72,8 @@ def strat_case(draw, tier, descending=False, min_chans=1):
     nsamps = None if draw(st.booleans()) else draw(st.integers(1, n - start))
     eff = n - start if nsamps is None else nsamps
     gulp = draw(st.integers(1, eff + 3))
-    return {"layout": lay, "fch1": ch["fch1"], "foff": ch["foff"], "start": start, "nsamps": nsamps, "gulp": gulp}
+    return {"layout": lay, "fch1": ch["fch1"], "foff": ch["foff"], "start": start, "nsamps": nsamps, "gulp": gulp,
+            "prior": draw(vs.prior_use(n))}
 
 
 class S:
@@ -89,7 +90,7 @@ class S:
         self.start, self.nsamps, self.gulp = case["start"], case["nsamps"], case["gulp"]
         self.eff = self.N - self.start if self.nsamps is None else self.nsamps
         self.X = self.D[self.start : self.start + self.eff]
-        self.rd = FilReader(self.paths)
+        self.rd = vs.apply_prior_use(FilReader(self.paths), case.get("prior"))
         self.kw = {"gulp": self.gulp, "start": self.start, "nsamps": self.nsamps, "quiet": True, "description": "v"}
         self.labels_in = self.fch1 + np.arange(self.nchans) * self.foff
         self.ctxt = (f"fch1={self.fch1!r} foff={self.foff!r} nchans={self.nchans} nbits={self.nbits} N={self.N} "
